@@ -210,6 +210,21 @@ func (r *Rediaron) BatchUpdate(ctx context.Context, data map[string]string) erro
 
 // BatchCreate is wrapper to adapt etcd batch create
 func (r *Rediaron) BatchCreate(ctx context.Context, data map[string]string) error {
+	keys := []string{}
+	for k := range data {
+		keys = append(keys, k)
+	}
+
+	// all or nothing, like the etcd store: nothing is created when any key exists
+	// FIXME: no transaction ensured
+	e, err := r.cli.Exists(ctx, keys...).Result()
+	if err != nil {
+		return err
+	}
+	if e != 0 {
+		return ErrAlreadyExists
+	}
+
 	create := func(pipe redis.Pipeliner) error {
 		for key, value := range data {
 			pipe.SetNX(ctx, key, value, 0)
